@@ -353,6 +353,18 @@ def run_check(pid, tier, seed):
         write_evidence(pid, tier, seed, thm, [], 1, t0, note="harness build failed")
         return 1
     proof_broken = (not okc) or (not okd) or (not thm["compiled"]) or bool(forb)
+    # thorough tier: re-check the compiled property file and everything it depends on with the independent
+    # checker coqchk (runs beside the suites; its context summary goes into the evidence)
+    chk = {"done": None}
+    if tier == "thorough" and okc:
+        import threading
+        def _chk():
+            t1 = time.time()
+            r = run(["timeout", "5400", "coqchk", "-silent", "-o", "-Q", COQ, "Klog", "Klog.Properties." + pid], cwd=COQ)
+            summ = r.stdout[r.stdout.find("CONTEXT SUMMARY"):] if "CONTEXT SUMMARY" in r.stdout else r.stdout[-1500:]
+            chk["done"] = {"returncode": r.returncode, "wall_s": round(time.time() - t1, 1),
+                           "summary": " ".join(summ.split())[:1500]}
+        chk_thread = threading.Thread(target=_chk); chk_thread.start()
     suites_ev = []
     corr_broken = []
     rng = random.Random(seed)
@@ -428,9 +440,15 @@ def run_check(pid, tier, seed):
         violations.append((p, " no-failing-input-found"))
     for p, suffix in violations:
         print("VIOLATION property=%s replay=%s%s" % (pid, os.path.relpath(p, ROOT) if OUT == ROOT else p, suffix))
+    if tier == "thorough" and okc:
+        chk_thread.join()
+        if chk["done"]["returncode"] != 0:
+            p = write_replay(pid, {"kind": "no-failing-input-found", "coqchk": chk["done"], "theorem_file": thm["file"]})
+            print("VIOLATION property=%s replay=%s no-failing-input-found" % (pid, p))
+            violations.append((p, " no-failing-input-found"))
     cov = go_coverage(covdir) if covdir else None
     write_evidence(pid, tier, seed, thm, suites_ev, len(violations), t0,
-                   known=[k["id"] for k, _ in known_lines], forb=forb, cov=cov)
+                   known=[k["id"] for k, _ in known_lines], forb=forb, cov=cov, coqchk=chk["done"])
     if covdir:
         shutil.rmtree(covdir, ignore_errors=True)
         # leave a plain (uninstrumented) harness behind for the next quick run
@@ -472,7 +490,7 @@ def load_corpus(pid):
     return out
 
 
-def write_evidence(pid, tier, seed, thm, suites_ev, nviol, t0, known=(), forb=(), note="", cov=None):
+def write_evidence(pid, tier, seed, thm, suites_ev, nviol, t0, known=(), forb=(), note="", cov=None, coqchk=None):
     os.makedirs(os.path.join(OUT, "evidence"), exist_ok=True)
     nthm = len(thm["theorems"])
     obligations = nthm + len(suites_ev)
@@ -502,6 +520,7 @@ def write_evidence(pid, tier, seed, thm, suites_ev, nviol, t0, known=(), forb=()
             "exhaustive": bool(suites_ev) and all(s["exhaustive"] for s in suites_ev),
             "suites": suites_ev, "samples": samples or [note or "none"],
             "known_findings_seen": sorted(set(known)),
+            "coqchk": coqchk if coqchk is not None else "run in the thorough tier only",
             "go_statement_coverage_percent": cov if cov is not None else "measured in the thorough tier only",
         },
         "assumptions": ["the Go toolchain and standard library behave as modelled (see DESIGN.md §6)",
